@@ -48,7 +48,9 @@ func TestVerif_C03(t *testing.T) {
 	s1.NumSlots, s1.Gsfa = 40, true
 	s3 := vfxDefaultSpec("c03s3", 3, seed+2)
 	s3.NumSlots, s3.Gsfa = 40, true
-	truths, err := vfxBuild([]vfxSpec{big, s1, s3})
+	mf := vfxDefaultSpec("c03mf", 4, seed+3) // a third of the transactions span several frames (no address index: its builder refuses split transaction data)
+	mf.NumSlots, mf.SkipPercent, mf.MaxEntries, mf.MaxTx, mf.FrameSize, mf.FanOut = 900, 10, 1, 3, 70, 3
+	truths, err := vfxBuild([]vfxSpec{big, s1, s3, mf})
 	if err != nil {
 		t.Fatalf("setup failed: %v", err)
 	}
@@ -59,6 +61,62 @@ func TestVerif_C03(t *testing.T) {
 	}
 	trBig := truths[0]
 	ctx := context.Background()
+	// ---- absent signatures against the epoch with multi-frame transactions: the key confirmation must not depend on
+	// how many frames the stored transaction has
+	{
+		trM := truths[3]
+		multiM, epsM, err := vfxMulti([]*vfxTruth{trM}, 2)
+		if err != nil {
+			t.Fatalf("setup failed: %v", err)
+		}
+		epM := epsM[0]
+		rngM := vh.NewRng(seed + 777)
+		nsigM := 400000
+		if vh.Thorough() {
+			nsigM = 2000000
+		}
+		coll, collMulti := 0, 0
+		for i := 0; i < nsigM; i++ {
+			var sig solana.Signature
+			binary.LittleEndian.PutUint64(sig[0:], rngM.U64())
+			binary.LittleEndian.PutUint64(sig[8:], rngM.U64())
+			sig[63] = 0xED
+			c, lerr := epM.sigToCidIndex.Get(sig)
+			if lerr != nil {
+				continue
+			}
+			coll++
+			frames := 1
+			if raw, err := epM.GetNodeByCid(ctx, c); err == nil {
+				if tx, err := iplddecoders.DecodeTransaction(raw); err == nil {
+					if total, ok := tx.Data.GetTotal(); ok {
+						frames = total
+					}
+				}
+			}
+			if frames > 1 {
+				collMulti++
+			}
+			rep.Case(fmt.Sprintf("multiframe/sig/%s", sig), true)
+			txn, _, gerr := epM.GetTransaction(ctx, sig)
+			if gerr == nil {
+				got, _ := readFirstSignature(txn.Data.Bytes())
+				if got != sig {
+					rep.Fail("transaction-of-another-signature", fmt.Sprintf("multi-frame epoch: Epoch.GetTransaction(%s) returned the %d-frame transaction %s", sig, frames, got),
+						map[string]interface{}{"spec": trM.Spec, "asked_sig": sig.String(), "got_sig": got.String(), "frames": frames})
+				}
+			}
+			if gr, gerr2 := multiM.GetTransaction(ctx, &old_faithful_grpc.TransactionRequest{Signature: sig[:]}); gerr2 == nil && gr != nil && gr.Transaction != nil {
+				rep.Fail("transaction-of-another-signature:grpc", fmt.Sprintf("multi-frame epoch: gRPC GetTransaction(%s) answered (%d-frame transaction stored under the colliding entry)", sig, frames),
+					map[string]interface{}{"spec": trM.Spec, "asked_sig": sig.String(), "frames": frames})
+			}
+		}
+		rep.CountN("multiframe absent-signatures-colliding", coll)
+		rep.CountN("multiframe absent-signatures-colliding-with-multi-frame-transaction", collMulti)
+		for _, e := range epsM {
+			e.Close()
+		}
+	}
 	for _, loaded := range []int{1, 3} {
 		var use []*vfxTruth
 		if loaded == 1 {
@@ -205,6 +263,44 @@ func TestVerif_C03(t *testing.T) {
 			}
 		}
 		rep.CountN(tag+" absent-cids-colliding", collCids)
+		// ---- sibling CIDs: same multihash as an archived object, another codec / version. They are not archived; with
+		// the objects already in the caches (getBlock prefetches whole sections) a fetch must still fail.
+		{
+			warm := 0
+			var sib int
+			for s, b := range present {
+				if warm >= 25 {
+					break
+				}
+				warm++
+				if _, err := multi.GetBlock(ctx, &old_faithful_grpc.BlockRequest{Slot: s}); err != nil {
+					continue
+				}
+				var cids []cid.Cid
+				cids = append(cids, vfxCidFromHex(b.Cid))
+				for _, e := range b.Entries {
+					cids = append(cids, vfxCidFromHex(e.Cid))
+				}
+				for _, tx := range b.Txs {
+					cids = append(cids, vfxCidFromHex(tx.Cid))
+				}
+				for _, c0 := range cids {
+					for _, codec := range []uint64{0x55 /* raw */, 0x70 /* dag-pb */, 0x0129 /* dag-json */, 0x71 /* dag-cbor */} {
+						c := cid.NewCidV1(codec, c0.Hash())
+						if c.Equals(c0) {
+							continue
+						}
+						sib++
+						rep.Case(fmt.Sprintf("%s/sibling-cid/%s", tag, c), true)
+						if raw, gerr := ep.GetNodeByCid(ctx, c); gerr == nil {
+							rep.Fail("bytes-of-another-cid:same-multihash", fmt.Sprintf("%s: GetNodeByCid(%s) returned %d bytes; only %s is archived (same multihash, another codec)", tag, c, len(raw), c0),
+								map[string]interface{}{"spec": trBig.Spec, "cid": c.String(), "archived": c0.String()})
+						}
+					}
+				}
+			}
+			rep.CountN(tag+" sibling-cids-tried", sib)
+		}
 		// the same through a CAR served by a ReaderAt (HTTP on loopback): the remote read path has its own CID check
 		if loaded == 1 {
 			if ln, lerr := net.Listen("tcp", "127.0.0.1:0"); lerr == nil {
